@@ -342,7 +342,13 @@ func (e *engine) explore(h *harnessSpec) *harnessResult {
 					}
 				}
 				for _, m := range r.inconcl {
-					if len(res.inconcl) < 20 {
+					dup := false
+					for _, x := range res.inconcl {
+						if x == m {
+							dup = true
+						}
+					}
+					if !dup && len(res.inconcl) < 20 {
 						res.inconcl = append(res.inconcl, m)
 					}
 				}
